@@ -154,6 +154,16 @@ mod verif_kani {
     #[kani::unwind(20)]
     #[kani::stub(core::panic::Location::caller, stub_caller)]
     fn c21_string_no_panic() {
+        let a: [u8; 10] = kani::any();
+        let n: usize = kani::any();
+        kani::assume(n <= 10);
+        let _ = String::deserialize(&a[..n]);
+    }
+
+    #[kani::proof]
+    #[kani::unwind(20)]
+    #[kani::stub(core::panic::Location::caller, stub_caller)]
+    fn c21_string_no_panic_len12() {
         let a: [u8; 12] = kani::any();
         let n: usize = kani::any();
         kani::assume(n <= 12);
